@@ -94,6 +94,81 @@ func unparsable() tls.Certificate {
 	return tls.Certificate{Certificate: [][]byte{[]byte("not a certificate")}, PrivateKey: key(0)}
 }
 
+// Intermediates: a few further certificates that can follow a leaf in a certificate file / in
+// tls.Certificate.Certificate (tls.X509KeyPair takes every CERTIFICATE block of the file; nothing verifies that
+// they sign the leaf). A chain variant v > 0 of a certificate is the same leaf followed by intermediate v-1:
+// "the operator appended the missing intermediate", "the CA's intermediate was exchanged".
+const nChains = 3
+
+var (
+	interMu  sync.Mutex
+	interDER [nChains][]byte
+)
+
+func intermediate(v int) []byte {
+	interMu.Lock()
+	defer interMu.Unlock()
+	v = ((v % nChains) + nChains) % nChains
+	if interDER[v] == nil {
+		factMu.Lock()
+		k := key(v)
+		factMu.Unlock()
+		tmpl := &x509.Certificate{
+			SerialNumber:          big.NewInt(int64(900 + v)),
+			Subject:               pkix.Name{CommonName: fmt.Sprintf("intermediate-%d", v)},
+			NotBefore:             time.Unix(1700000000, 0),
+			NotAfter:              time.Unix(4000000000, 0),
+			IsCA:                  true,
+			BasicConstraintsValid: true,
+			KeyUsage:              x509.KeyUsageCertSign,
+		}
+		der, err := x509.CreateCertificate(rand.Reader, tmpl, tmpl, &k.PublicKey, k)
+		if err != nil {
+			panic(err)
+		}
+		interDER[v] = der
+	}
+	return interDER[v]
+}
+
+// withChain returns the certificate with chain variant v (0: the leaf alone).
+func withChain(c tls.Certificate, v int) tls.Certificate {
+	if v <= 0 || len(c.Certificate) == 0 {
+		return c
+	}
+	out := c
+	out.Certificate = [][]byte{c.Certificate[0], intermediate(v - 1)}
+	return out
+}
+
+// chainOf says which chain variant a certificate (or a presented chain) is: 0 leaf alone, v = leaf followed by
+// intermediate v-1, -1 anything else.
+func chainOf(ders [][]byte) int {
+	switch len(ders) {
+	case 1:
+		return 0
+	case 2:
+		for v := 0; v < nChains; v++ {
+			if bytes.Equal(ders[1], intermediate(v)) {
+				return v + 1
+			}
+		}
+	}
+	return -1
+}
+
+func sameChain(a, b [][]byte) bool {
+	if len(a) != len(b) {
+		return false
+	}
+	for i := range a {
+		if !bytes.Equal(a[i], b[i]) {
+			return false
+		}
+	}
+	return true
+}
+
 func certPEM(c tls.Certificate) []byte {
 	return pem.EncodeToMemory(&pem.Block{Type: "CERTIFICATE", Bytes: c.Certificate[0]})
 }
